@@ -12,7 +12,7 @@
    strips UTF-8 spaces such as U+00A0 from the end of the line, so a key ending in C2 A0 does
    not survive; the model reproduces that, the theorem excludes it). *)
 From Rend Require Import base.Bytes base.BytesProofs gen.Consts_gen spec.MapSpec orca.Types proto.Resp
-  proto.ReqCommon proto.ReqCommonProofs proto.BinReq proto.BinReqProofs proto.TextReq proto.TextReqProofs.
+  proto.ReqCommon proto.ReqCommonProofs proto.BinReq proto.BinReqProofs proto.TextReq proto.TextReqProofs proto.BinPrefix proto.TextPrefix.
 Open Scope N_scope.
 
 (* binary: every well-formed request of the supported subset — set/add/replace (+Q),
@@ -97,3 +97,45 @@ Example c07_nonvacuous_text :
      RGet [mkGI [97] 0 false; mkGI [98; 99] 0 false] 0 false;
      RDelete [107] 0; RTouch [107] 4294967295 0; RNoop 0; RQuit 0 false; RVersion 0; RStat 0] = true.
 Proof. vm_compute. reflexivity. Qed.
+
+(* "consuming exactly the bytes of that request", the converse: the decoders decide from the
+   bytes they consume and from nothing that follows. A request decoded from a stream is decoded
+   from every extension of that stream, the extension left unread behind it (binary) ... *)
+Theorem c07_bin_decides_from_consumed : forall (s b : bytes) (r : req) (rest : bytes),
+  fst (parse_bin s) = PDone r rest -> fst (parse_bin (s ++ b)) = PDone r (rest ++ b).
+Proof. exact bin_extension. Qed.
+Print Assumptions c07_bin_decides_from_consumed.
+
+(* ... so a request whose bytes have not all arrived is not a request: no proper prefix of a
+   well-formed binary request decodes to anything, whichever field the stream ends in - the
+   parser reports an I/O error and the connection is closed *)
+Theorem c07_bin_prefix_not_decoded : forall (r : req) (a b : bytes),
+  wf_bin r = true -> enc_bin r = a ++ b -> b <> [] ->
+  (forall r' rest, fst (parse_bin a) <> PDone r' rest) /\ fst (parse_bin a) = PClose.
+Proof. intros r a b H1 H2 H3. split; [exact (bin_prefix_not_decoded r a b H1 H2 H3) | exact (bin_prefix_closes r a b H1 H2 H3)]. Qed.
+Print Assumptions c07_bin_prefix_not_decoded.
+
+(* text: the decoded request does not depend on what follows; the unread remainder does in one
+   case only - setRequest discards the line after the data block without looking at it *)
+Theorem c07_text_decides_from_consumed : forall (s b : bytes) (r : req) (rest : bytes),
+  fst (parse_text s) = PDone r rest -> exists rest', fst (parse_text (s ++ b)) = PDone r rest'.
+Proof. exact text_extension. Qed.
+Print Assumptions c07_text_decides_from_consumed.
+
+(* a truncated text request decodes to nothing or (data block complete, its "\r\n" cut) to that
+   very request, never to another one *)
+Theorem c07_text_prefix_same_or_nothing : forall (r : req) (a b : bytes),
+  wf_text r = true -> enc_text r = a ++ b ->
+  forall r' rest, fst (parse_text a) = PDone r' rest -> r' = r.
+Proof. exact text_prefix_same_or_nothing. Qed.
+Print Assumptions c07_text_prefix_same_or_nothing.
+
+(* non-vacuity: a set cut at the key/value boundary closes; a text set without its final CR LF
+   is the one truncated form that still decodes *)
+Example c07_prefix_witness :
+  (let r := RSet MSet [107] [1; 2; 3] 5 6 7 false in
+   wf_bin r = true /\ fst (parse_bin (firstn 33 (enc_bin r))) = PClose) /\
+  (let t := RSet MSet [107] [120; 121] 1 2 0 false in
+   wf_text t = true /\ fst (parse_text (firstn (length (enc_text t) - 2) (enc_text t))) = PDone t [] /\
+   fst (parse_text (firstn (length (enc_text t) - 3) (enc_text t))) = PClose).
+Proof. vm_compute. repeat split; reflexivity. Qed.
